@@ -11,17 +11,31 @@
 (* two threads interleave freely and the reader can move back to an older commit.               *)
 EXTENDS Naturals, FiniteSets
 
-CONSTANTS Threads, MaxCommits, Serialize,
-          Callbacks   \* TRUE: reloads only happen as watch callbacks, one per commit (ReloadPolicy::OnCommitWithDelay:
+CONSTANTS
+  \* @type: Set(Str);
+  Threads,
+  \* @type: Int;
+  MaxCommits,
+  \* @type: Bool;
+  Serialize,
+  \* @type: Bool;
+  Callbacks   \* TRUE: reloads only happen as watch callbacks, one per commit (ReloadPolicy::OnCommitWithDelay:
                       \* every meta.json write spawns a thread that reloads); FALSE: threads reload whenever they like
 
 VARIABLES
+  \* @type: Int;
   commit,     \* number of the newest commit in meta.json
+  \* @type: Int;
   published,  \* commit of the searcher the reader serves
+  \* @type: Int;
   exposed,    \* newest commit a completed reload has published so far (history variable)
+  \* @type: Str -> Str;
   pc,         \* thread -> "idle" | "opened" | "warmed"
+  \* @type: Str -> Int;
   loaded,     \* thread -> commit its unpublished searcher was built from
+  \* @type: Str;
   lock,       \* holder of reload_lock, or "none"
+  \* @type: Int;
   todo        \* commits whose watch callback has not started its reload yet
 vars == <<commit, published, exposed, pc, loaded, lock, todo>>
 
@@ -69,5 +83,14 @@ PublishedMonotone == [][published' >= published]_vars
 \* a reload that starts after a commit completed exposes at least that commit
 \* with one callback per commit, once every callback has run the reader serves the newest commit
 FreshAtRest == (Callbacks /\ todo = 0 /\ \A t \in Threads : pc[t] = "idle") => published = commit
+\* Inductive invariant of the repaired code (Serialize = TRUE), for ANY number of threads and commits:
+\* checked with Apalache (IndInit => IndInv at length 0, IndInv /\ Next => IndInv' at length 1).
+IndInv ==
+  /\ commit \in Nat /\ published \in Nat /\ exposed \in Nat /\ todo \in Nat
+  /\ pc \in [Threads -> {"idle", "opened", "warmed"}]
+  /\ loaded \in [Threads -> Nat]
+  /\ lock \in Threads \cup {"none"}
+  /\ published = exposed /\ exposed <= commit
+  /\ \A t \in Threads : pc[t] # "idle" => (lock = t /\ exposed <= loaded[t] /\ loaded[t] <= commit)
 ReloadIsFresh == \A t \in Threads : pc[t] # "idle" => loaded[t] <= commit
 =============================================================================
